@@ -332,13 +332,17 @@ static std::string abf_conf(int freq, bool czar = false)
          "abf {\n name a\n colvars d\n fullSamples 1\n shared on\n sharedFreq " + std::to_string(freq) + "\n outputFreq " + std::to_string(freq) + "\n}\n";
 }
 
-static std::string opes_conf(int pace)
+static std::string opes_conf(int pace, bool adaptive = false)
 {
+  if (adaptive)
+    return "colvar {\n name d\n width 0.5\n lowerBoundary 1.0\n upperBoundary 3.0\n distance {\n group1 { atomNumbers 1 }\n group2 { atomNumbers 2 }\n }\n}\n"
+           "opes_metad {\n name o\n colvars d\n newHillFrequency " + std::to_string(pace) + "\n barrier 5.0\n adaptiveSigma on\n adaptiveSigmaStride " + std::to_string(pace) +
+           "\n compressionThreshold 0\n multipleReplicas on\n}\n";
   return "colvar {\n name d\n width 0.5\n lowerBoundary 1.0\n upperBoundary 3.0\n distance {\n group1 { atomNumbers 1 }\n group2 { atomNumbers 2 }\n }\n}\n"
          "opes_metad {\n name o\n colvars d\n newHillFrequency " + std::to_string(pace) + "\n barrier 5.0\n gaussianSigma 0.1\n compressionThreshold 0\n multipleReplicas on\n}\n";
 }
 // positions of the OPES walkers: all different, so that every kernel can be attributed to (walker, step)
-static double opes_pos(int w, long s) { return 1.1 + 0.37 * w + 0.09 * s; }
+static double opes_pos(int w, long s) { return 1.1 + 0.37 * w + 0.09 * s + 0.013 * w * ((s * s) % 5); }
 
 struct AbfCase {
   int n, L, freq;
@@ -347,6 +351,7 @@ struct AbfCase {
   std::vector<std::vector<int>> word;  // per walker per step: letter = bin*2 + force
   int bound;            // max deviations from the default order
   int rstep = 0;        // exchange step after which all walkers stop and restart (0 = the first one)
+  bool adaptive = false; // OPES: adaptiveSigma on (every walker measures its own kernel width)
   bool opes = false;    // OPES with multipleReplicas instead of shared ABF (freq = newHillFrequency)
   bool czar = false;    // extended-Lagrangian variable: the CZAR data are gathered on replica 0 when the output is written (end of run)
   int stop_step() const { return rstep ? rstep : freq; }
@@ -383,7 +388,7 @@ static AbfOutcome abf_execute(AbfCase const &c, std::vector<int> const &prefix)
   ctl.rendezvous = c.rendezvous;
   std::vector<WalkerSpec> specs(c.n);
   for (int i = 0; i < c.n; i++) { specs[i].conf = abf_conf(c.freq, c.czar); specs[i].out_prefix = "abf_w" + std::to_string(i); if (c.czar) specs[i].temperature = 300.0; }
-  if (c.opes) for (int i = 0; i < c.n; i++) { specs[i].conf = opes_conf(c.freq); specs[i].temperature = 300.0; }
+  if (c.opes) for (int i = 0; i < c.n; i++) { specs[i].conf = opes_conf(c.freq, c.adaptive); specs[i].temperature = 300.0; }
   std::vector<bool> ended(c.n, false);
   ctl.spawn(specs);
   for (int i = 0; i < c.n; i++) { ctl.w[i].next_step = 0; ctl.w[i].last_step = c.restart_walker >= 0 ? c.stop_step() : c.L - 1; }
@@ -500,7 +505,19 @@ static AbfOutcome abf_execute(AbfCase const &c, std::vector<int> const &prefix)
       std::sort(centres.begin(), centres.end());
       bool same = centres.size() == expect.size();
       for (size_t k = 0; same && k < centres.size(); k++) if (std::fabs(centres[k] - expect[k]) > 1e-9) same = false;
-      if (!same) {
+      if (c.adaptive) {
+        // with adaptive widths the first depositions are skipped while the variance is being measured: the kernels present
+        // must be one per walker for each of the LAST steps that deposited, and identical on all walkers (compared above)
+        bool okc = centres.size() > 0 && (centres.size() % c.n) == 0 && centres.size() <= expect.size();
+        if (okc) {
+          std::vector<double> tailexp;
+          long ndep = centres.size() / c.n, k = 0;
+          for (long st = c.freq; st < c.L; st += c.freq, k++) if (k >= (long) (expect.size() / c.n) - ndep) for (int w = 0; w < c.n; w++) tailexp.push_back(opes_pos(w, st));
+          std::sort(tailexp.begin(), tailexp.end());
+          for (size_t q = 0; okc && q < centres.size(); q++) if (std::fabs(centres[q] - tailexp[q]) > 1e-9) okc = false;
+        }
+        if (!okc) { out.problem = "OPES kernels (adaptive widths) of walker " + std::to_string(i) + " are not one per walker and deposition step; data: " + d; out.sig = "opes:kernels-differ-from-union:adaptive-widths"; }
+      } else if (!same) {
         out.problem = "OPES kernels of walker " + std::to_string(i) + ": " + std::to_string(centres.size()) + " kernels, expected " + std::to_string(expect.size()) + " (one per walker and deposition step); data: " + d;
         out.sig = std::string("opes:kernels-differ-from-union") + (centres.size() > expect.size() ? ":counted-more-than-once" : (centres.size() < expect.size() ? ":kernels-missing" : ":centres"));
       } else if (counter != 1 + (long) expect.size()) {
@@ -765,6 +782,8 @@ int main(int argc, char **argv)
     {
       AbfCase o2{2, 5, 2, false, -1, w4, thorough ? 2 : 1}; o2.opes = true; abf.push_back(o2);
       AbfCase o3{3, 5, 2, true, -1, w4, thorough ? 2 : 1}; o3.opes = true; abf.push_back(o3);
+      AbfCase oa{2, 9, 2, false, -1, w4, thorough ? 1 : 0}; oa.opes = true; oa.adaptive = true; abf.push_back(oa);
+      AbfCase oa3{3, 9, 2, true, -1, w4, 0}; oa3.opes = true; oa3.adaptive = true; abf.push_back(oa3);
     }
     if (thorough) {
       abf.push_back({4, 4, 2, false, -1, w4, 1});                     // four walkers
